@@ -77,6 +77,7 @@ type Ctx struct {
 	mins  map[string]int // rule -> minimum number of instances
 	rules map[string]string
 	notes []string
+	seen  map[string]int
 	// configurations analysed (thorough)
 	configs []string
 }
@@ -112,7 +113,15 @@ func (c *Ctx) add(rule, key string, p token.Pos, st Status, what, detail string)
 }
 
 func (c *Ctx) addAt(rule, key, pos string, st Status, what, detail string) *Obligation {
-	o := &Obligation{Rule: rule, Key: rule + ":" + key, Pos: pos, What: what, Status: st.String(), Detail: detail, status: st}
+	full := rule + ":" + key
+	if c.seen == nil {
+		c.seen = map[string]int{}
+	}
+	c.seen[full]++
+	if n := c.seen[full]; n > 1 {
+		full = fmt.Sprintf("%s#%d", full, n)
+	}
+	o := &Obligation{Rule: rule, Key: full, Pos: pos, What: what, Status: st.String(), Detail: detail, status: st}
 	c.obs = append(c.obs, o)
 	return o
 }
@@ -590,4 +599,28 @@ func seedFromEnv() int {
 	var n int
 	fmt.Sscanf(os.Getenv("VERIF_SEED"), "%d", &n)
 	return n
+}
+
+// pluginModules lists the separate Go modules under plugins/ and examples/ (each with its own go.mod).
+func pluginModules(repo string) []string {
+	var out []string
+	for _, pat := range []string{"plugins/*/go.mod", "examples/*/go.mod"} {
+		ms, _ := filepath.Glob(filepath.Join(repo, pat))
+		for _, g := range ms {
+			d := filepath.Dir(g)
+			if filepath.Base(d) == "wasm" {
+				continue // built for GOOS=wasip1 only
+			}
+			out = append(out, d)
+		}
+	}
+	sort.Strings(out)
+	return out
+}
+
+func relMod(repo, dir string) string {
+	if r, err := filepath.Rel(repo, dir); err == nil {
+		return r
+	}
+	return dir
 }
